@@ -92,6 +92,7 @@ fn main() {
             continue;
         }
         let case = Case::parse(line);
+        ctx.reserve(&case);
         let (res, trace) = ops::run(&mut ctx, &case);
         writeln!(out, "{}\t{}\t{}", i, res, trace).unwrap();
         out.flush().unwrap();
